@@ -321,7 +321,9 @@ Step(e) ==
          LET pred == ExternalKill(cfg, wl, s, e.cid, e.err) IN
          /\ Bump(RExtKill, 1)
          /\ IF cfg.mode # "step" THEN s' = [s EXCEPT !.ost = e.obs.ost] /\ dead' = FALSE
-            ELSE IF pred.crash # "" THEN PrintT(<<"PRECOND", e.tid, "the harness killed a container that is not live", e.cid>>) /\ s' = s /\ dead' = TRUE
+            \* (the harness only kills containers the executor lists as running: if the model does not know that container as live, the two
+            \*  disagree about which containers exist - e.g. two containers under one id)
+            ELSE IF pred.crash # "" THEN Flag(e, "conf.C09.containers.kill", FALSE, <<"the executor lists container", e.cid, "as running; the model does not">>) /\ s' = s /\ dead' = TRUE
             ELSE /\ Flag(e, "conf.C02.ost.kill", pred.ost = e.obs.ost, <<"pred", pred.ost, "obs", e.obs.ost>>)
                  /\ Flag(e, "C02.LegalMoves", \A x \in AllOpsOf(wl) : ObsOst(e, x) # Ost(s, x) => ObsOst(e, x) \in ReachN(Ost(s, x)), "kill")
                  /\ s' = [pred EXCEPT !.ost = e.obs.ost] /\ dead' = FALSE
